@@ -261,7 +261,14 @@ def execute(case):
                 rec["dup"] = True
                 rec["is_reply"] = False
                 deliver(rec, raw)
-                # a duplicate never changes the model: same value as a frame already applied (v <= L now)
+                # same rules as for the original: the copy moves the timer only if its value is (still) ahead,
+                # e.g. a wrapper first seen before synchronisation and seen again afterwards
+                if rec["kind"] == "wrap":
+                    if rec["authentic"] and rec["allowed"] and M["synced"] and rec["v"] > l_now:
+                        M["D"] += rec["v"] - l_now
+                elif rec["kind"] == "notify":
+                    if rec["authentic"] and rec["v"] > l_now and not (M["reply_at"] is not None and M["reply_at"][0] == now):
+                        M["D"] += rec["v"] - l_now
             elif kind == "send":
                 if not task.done():
                     continue
